@@ -439,7 +439,7 @@ def parse_model_output(text):
     res, cur = [], {}
     for l in text.split("\n"):
         w = l.split(" ")
-        if w[0] in ("SPEC", "MECH", "FREE"):
+        if w[0] in ("SPEC", "MECH", "FREE", "OBS"):
             cur[w[0].lower()] = (w[1], w[2:])
         elif w[0] == "INV":
             cur["inv"] = w[1] == "1"
